@@ -212,6 +212,11 @@ def dfs_workloads(profile, tier):
                 wl = {'kind': kind, 'n': n, 'workers': w, 'buffer': b}
                 base.append((wl, pool_k))
             base.append(({'kind': kind, 'n': n, 'workers': 2, 'buffer': 3, 'with_key': kind == 'pm'}, min(pool_k, 1)))
+        if profile == 'plain' and n == 2:
+            # worker threads index INTO core.py stages that build something lazily on first use: every schedule with
+            # one preemption at any core.py / parallel_utils.py line
+            for src in ('keyzip_sel', 'concat'):
+                base.append(({'kind': 'pf', 'n': n, 'workers': 2, 'buffer': 2, 'src': src, 'trace_core': True}, 1))
         for wl, k in base:
             if profile == 'plain':
                 out.append((wl, k))
